@@ -114,8 +114,8 @@ Definition parse_language_gen (endp : list N -> bool) (s : list N) : outcome lan
   then Ok (mkLang ll cc (option_map (map ascii_upper) en) md)    (* Language.__init__: encoding.upper() *)
   else Err LSyntax.
 
-(* ling.parse_language as it is *)
-Definition parse_language : list N -> outcome language ling_err := parse_language_gen at_dollar.
+(* ling.parse_language as it is (the pattern ends with \Z) *)
+Definition parse_language : list N -> outcome language ling_err := parse_language_gen at_end.
 (* the same with \Z in place of $ *)
 Definition parse_language_Z : list N -> outcome language ling_err := parse_language_gen at_end.
 
@@ -319,7 +319,6 @@ Fixpoint index_of (x : list N) (l : list (list N)) : option nat :=
 
 Definition s_LC_MESSAGES : list N := [76; 67; 95; 77; 69; 83; 83; 65; 71; 69; 83].
 Definition s_dot_po : list N := [46; 112; 111].
-Definition s_None : list N := [78; 111; 110; 101].
 
 (* the component before the first 'LC_MESSAGES' component of the normalised path, if that is not the first one *)
 Definition lcmessages_parent (path : list N) : option (list N) :=
@@ -344,24 +343,9 @@ Fixpoint lg_infix (needle hay : list N) : bool :=
 (* os.path.basename *)
 Definition basename (p : list N) : list N := last (lg_split 47 p) [].
 
-(* os.path.splitext of a string without '/': (root, ext) *)
-Fixpoint all_dots (s : list N) : bool :=
-  match s with [] => true | c :: r => N.eqb c 46 && all_dots r end.
-(* the text after the last '.', reversed scan: returns (root, ext) with ext starting at the last dot *)
-Fixpoint split_last_dot (s : list N) : option (list N * list N) :=
-  match s with
-  | [] => None
-  | c :: r =>
-    match split_last_dot r with
-    | Some (a, b) => Some (c :: a, b)
-    | None => if N.eqb c 46 then Some ([], s) else None
-    end
-  end.
-Definition splitext (b : list N) : list N * list N :=
-  match split_last_dot b with
-  | Some (root, ext) => if all_dots root then (b, []) else (root, ext)
-  | None => (b, [])
-  end.
+(* os.path.basename(path)[:-3] *)
+Definition po_stem (path : list N) : list N :=
+  let b := basename path in firstn (length b - 3) b.
 
 Definition replace_char (a b : N) (s : list N) : list N := map (fun c => if N.eqb c a then b else c) s.
 
@@ -425,9 +409,7 @@ Definition lang_from_dir (cfg : ling_cfg) (path : list N) : outcome (option lang
 
 (* language named by the base name of a path that ends with '.po' *)
 Definition lang_from_basename (cfg : ling_cfg) (path : list N) : outcome (option language) ling_err :=
-  let '(root, ext) := splitext (basename path) in
-  if negb (lg_eqb ext s_dot_po) then Crash CAssertion else          (* assert ext == '.po' *)
-  match parse_language root with
+  match parse_language (po_stem path) with
   | Err _ => Ok None
   | Crash c => Crash c
   | Ok l =>
@@ -498,19 +480,20 @@ Definition field_language (cfg : ling_cfg) (meta : option (list N)) : outcome fi
     end
   end.
 
-(* f'/{meta_language}/' in self.path or f'/{meta_language}/'.replace('_', '-') in self.path;
-   a meta_language that is None at that point prints as "None" *)
-Definition path_names (path : list N) (ml : option language) : bool :=
-  let s := 47 :: (match ml with Some l => str_language l | None => s_None end) ++ [47] in
+(* f'/{meta_language}/' in self.path or f'/{meta_language}/'.replace('_', '-') in self.path *)
+Definition path_names (path : list N) (m : language) : bool :=
+  let s := 47 :: str_language m ++ [47] in
   lg_infix s path || lg_infix (replace_char 95 45 s) path.
 
-(* the LibreOffice exception: a language taken from the base name is dropped *)
+(* the LibreOffice exception (`meta_language is not None and language_source_quality <= 0 and ...`):
+   a language taken from the base name is dropped *)
 Definition libreoffice_drop (path : list N) (ext : option (language * lsource * bool)) (fr : field_result)
   : option (language * lsource) :=
   match ext with
   | None => None
   | Some (l, src, q) =>
-    if f_entered fr && negb q && path_names path (f_lang fr) then None else Some (l, src)
+    if f_entered fr && match f_lang fr with Some m => negb q && path_names path m | None => false end
+    then None else Some (l, src)
   end.
 
 Definition merge_field (ext : option (language * lsource)) (ml : option language)
